@@ -144,7 +144,7 @@ func c06ClientChannel(c *fw.Ctx, cs c06Case) {
 			}
 		}
 	}()
-	ctx, cancel := context.WithTimeout(context.Background(), 30*time.Second)
+	ctx, cancel := context.WithTimeout(context.Background(), 90*time.Second)
 	defer cancel()
 	d := &uacp.Dialer{ClientACK: &uacp.Acknowledge{ReceiveBufSize: g.RecvBuf, SendBufSize: g.SendBuf, MaxMessageSize: g.MaxMsg, MaxChunkCount: g.MaxChunks}}
 	conn, err := d.Dial(ctx, "opc.tcp://"+l.Addr().String())
@@ -254,7 +254,8 @@ func c06ClientChannel(c *fw.Ctx, cs c06Case) {
 		c.Journal(cs.Index, cs)
 		respSize <- n
 		var got int
-		err := sc.SendRequest(ctx, &ua.ReadRequest{NodesToRead: []*ua.ReadValueID{{NodeID: ua.NewNumericNodeID(1, 2), AttributeID: ua.AttributeIDValue, DataEncoding: &ua.QualifiedName{}}}}, nil, func(v ua.Response) error {
+		// the time a large answer takes to arrive is not the subject: a generous timeout of its own
+		err := sc.SendRequestWithTimeout(ctx, &ua.ReadRequest{NodesToRead: []*ua.ReadValueID{{NodeID: ua.NewNumericNodeID(1, 2), AttributeID: ua.AttributeIDValue, DataEncoding: &ua.QualifiedName{}}}}, nil, 40*time.Second, func(v ua.Response) error {
 			if rr, ok := v.(*ua.ReadResponse); ok && len(rr.Results) == 1 && rr.Results[0].Value != nil {
 				b, _ := rr.Results[0].Value.Value().([]byte)
 				got = len(b)
